@@ -162,6 +162,36 @@ func Run(ctx *common.Ctx) {
 			}
 		}
 	}
+	// own definition over an inherited exported name, then an unuse-package of ANOTHER package (used or not), then a
+	// write and the resolutions: Package.Unuse rebuilds the user's tables and must keep the package's own entries
+	// (stored seed C13-7; the random stream alone lost this shape when qualified writes were added).
+	for kind := 0; kind < 2; kind++ { // variable / function
+		def, exp := 65, 40
+		if kind == 1 {
+			def, exp = 85, 48
+		}
+		for cExports := 0; cExports < 2; cExports++ {
+			for usedC := 0; usedC < 2; usedC++ {
+				for cFirst := 0; cFirst < 2; cFirst++ {
+					st := func(p, q, x int) [5]int { return [5]int{p, q, 0, 0, x} }
+					h := [][5]int{st(1, 0, 5), st(0, 0, def), st(1, 0, exp)}
+					if cExports == 1 {
+						h = append(h, st(2, 0, 5), st(0, 0, def), st(2, 0, exp))
+					}
+					h = append(h, st(0, 0, 5), st(0, 0, def))
+					if usedC == 1 && cFirst == 1 {
+						h = append(h, st(0, 2, 20))
+					}
+					h = append(h, st(0, 1, 20))
+					if usedC == 1 && cFirst == 0 {
+						h = append(h, st(0, 2, 20))
+					}
+					h = append(h, st(0, 2, 28), st(0, 0, def), st(1, 0, 5), st(0, 0, def))
+					enum = append(enum, h)
+				}
+			}
+		}
+	}
 	ncases += len(enum)
 	for k := 0; len(terms) < ncases; k++ {
 		pk := []string{fmt.Sprintf("vq%da", k), fmt.Sprintf("vq%db", k), fmt.Sprintf("vq%dc", k)}
@@ -474,7 +504,7 @@ func Run(ctx *common.Ctx) {
 		}
 	}
 	ctx.Meta.DistinctNontrivial = len(distinct)
-	ctx.Meta.Rule = "64 enumerated histories (seed-independent: {setq, defvar} x {p:n, p::n} x 6 kinds of target variable x current package other / same; fmakunbound x {p:f, p::f} x 4 kinds of target function (private, exported, absent, inherited) x current package other / same) + random histories (2..12 ops, thorough 2..14; 70% focused on one variable, one function and one exporting package; 35% start with one of 18 scripted openings of 7..14 steps, one per repaired finding of C13: unuse, private setq, use over own names, (f)makunbound of exported and of inherited names, export before definition, defun on inherited names, unexport in a user, two exporters of one name, use chains) over 3 fresh packages x {in-package, use-package, unuse-package, export, unexport, setq, defvar, defun, makunbound, fmakunbound, 7% qualified writes (setq|defvar p:n|p::n) and 5% qualified fmakunbound (p:f|p::f)} x 2 variable and 2 function names; after every step 84 resolutions (3 current packages x 4 names x {plain, p:, p::} x 3 packages) and, for each of the 42 function slots, the answers of fboundp, symbol-function, function, fdefinition, function-lambda-expression on the same (qualified) name; 20 built-in names (4 functions x {plain, cl:, cl::, common-lisp:, common-lisp::}) through the same five resolvers; distinct = distinct op sequences (all have >= 2 ops)"
+	ctx.Meta.Rule = "80 enumerated histories (seed-independent: 16 x own definition over an inherited exported name followed by an unuse-package of another package; {setq, defvar} x {p:n, p::n} x 6 kinds of target variable x current package other / same; fmakunbound x {p:f, p::f} x 4 kinds of target function (private, exported, absent, inherited) x current package other / same) + random histories (2..12 ops, thorough 2..14; 70% focused on one variable, one function and one exporting package; 35% start with one of 18 scripted openings of 7..14 steps, one per repaired finding of C13: unuse, private setq, use over own names, (f)makunbound of exported and of inherited names, export before definition, defun on inherited names, unexport in a user, two exporters of one name, use chains) over 3 fresh packages x {in-package, use-package, unuse-package, export, unexport, setq, defvar, defun, makunbound, fmakunbound, 7% qualified writes (setq|defvar p:n|p::n) and 5% qualified fmakunbound (p:f|p::f)} x 2 variable and 2 function names; after every step 84 resolutions (3 current packages x 4 names x {plain, p:, p::} x 3 packages) and, for each of the 42 function slots, the answers of fboundp, symbol-function, function, fdefinition, function-lambda-expression on the same (qualified) name; 20 built-in names (4 functions x {plain, cl:, cl::, common-lisp:, common-lisp::}) through the same five resolvers; distinct = distinct op sequences (all have >= 2 ops)"
 	header := "From C13 Require Import Model Spec Corr.\nOpen Scope Z_scope.\n"
 	footer := "Definition res := Eval vm_compute in fcheck_all cases.\nPrint res.\n" +
 		"Definition gcount := Eval vm_compute in xguard_count (map fst cases).\nPrint gcount.\n" +
